@@ -8,10 +8,12 @@ import CoapVerif.Model.RouterNested
 import CoapVerif.Spec.RouterNested
 import CoapVerif.Model.RouterWireOpts
 import CoapVerif.Spec.RouterWireOpts
+import CoapVerif.Model.RouterChurn
 /-!
 Driver for C17.  `drv_c17 model` replays operation lines on Model/Router (for `serve`/`match` it prints every
 outcome some map-iteration order can produce, joined by ` || `); `drv_c17 judge` evaluates Spec/Router's judge (with Spec/RouterPrefer's choice of the decomposition) on
-`operation | what the implementation answered`.  Strings travel as lower-case hex of their UTF-8 bytes (`-` = empty).
+`operation | what the implementation answered`.  `churn <n> <prefix> <h>` = n modifications of the route table in one line
+(Model/RouterChurn; both modes replay them one by one).  Strings travel as lower-case hex of their UTF-8 bytes (`-` = empty).
 -/
 namespace Driver.C17
 open CoapVerif CoapVerif.Model.Router
@@ -491,6 +493,14 @@ def modelStepM (s : MState) (line : String) : MState × String :=
       fmtNested s.x.r res.1 (tagOf oo)))
     let canonical := serveNested s.x.r s.inner mountVarOf s.x.r.z s.inner.z s.msg
     ({ s with msg := canonical.2 }, joinWith " || " (dedup outs))
+  | ["churn", n, pre, h] =>
+    -- a long run: n modifications of the route table, replayed one by one (Model/RouterChurn)
+    match n.toNat?, decodeStr pre with
+    | some n, some pre =>
+      match s.x.r.churn pre (.named h) n with
+      | (r', none) => ({ s with x := { s.x with r := r' } }, s!"ok {n}")
+      | (r', some (i, f)) => ({ s with x := { s.x with r := r' } }, s!"bad {i} {fmtFail f}")
+    | _, _ => (s, "bad-op")
   | _ =>
     let (x', out) := modelStepE s.x line
     ({ s with x := x' }, out)
@@ -500,6 +510,15 @@ structure JState where
   errh : String := "print"
   inner : CoapVerif.Spec.Router.SpecState := {}
   msg : CoapVerif.Spec.Router.MsgSpec := {}
+
+/-- `churn`: the judge keeps its own record of the registrations up to date, operation by operation (`upto` = how many of the
+    run's operations were answered ok); the first verdict that is not `ok` ends it -/
+def judgeChurn (pre : Str) (h : String) : Nat → Nat → CoapVerif.Spec.Router.SpecState → CoapVerif.Spec.Router.SpecState × String
+  | 0, _, st => (st, "ok")
+  | k + 1, i, st =>
+    let p := encodeStr (pre ++ (toString (i / 2)).toList)
+    let (st', v) := judgeStep st (if i % 2 = 0 then s!"route {p} {h} | ok" else s!"unroute {p} | ok")
+    if v = "ok" then judgeChurn pre h k (i + 1) st' else (st', v)
 
 open CoapVerif.Spec.Router in
 def judgeStepM (s : JState) (line : String) : JState × String :=
@@ -537,6 +556,22 @@ def judgeStepM (s : JState) (line : String) : JState × String :=
         match verdict with
         | none => ({ s with msg := msg' }, "ok")
         | some c => ({ s with msg := msg' }, "violates " ++ c)
+    | ["churn", n, pre, h] =>
+      match n.toNat?, decodeStr pre, ow with
+      | some n, some pre, ["ok", m] =>
+        if m.toNat? ≠ some n then (s, "bad-obs") else
+        let (st', v) := judgeChurn pre h n 0 s.st
+        ({ s with st := st' }, v)
+      | some _, some pre, "bad" :: i :: ans =>
+        match i.toNat? with
+        | none => (s, "bad-obs")
+        | some i =>
+          let (st', v) := judgeChurn pre h i 0 s.st
+          if v ≠ "ok" then ({ s with st := st' }, v) else
+          let p := encodeStr (pre ++ (toString (i / 2)).toList)
+          let (st'', v') := judgeStep st' ((if i % 2 = 0 then s!"route {p} {h}" else s!"unroute {p}") ++ " | " ++ joinWith " " ans)
+          ({ s with st := st'' }, v')
+      | _, _, _ => (s, "bad-obs")
     | _ =>
       let ((st', errh'), out) := judgeStepE (s.st, s.errh) line
       ({ s with st := st', errh := errh' }, out)
